@@ -486,6 +486,9 @@ func judge(p *Program, knownGap bool) (msg string, cell string, v Verdict, cr ch
 		if knownGap && p.matchesLoopJumpGap() {
 			return "", "good/rejected-FS24", v, cr
 		}
+		if knownLoopReturnJump && p.matchesLoopReturnJumpGap() {
+			return "", "good/rejected-FS39", v, cr
+		}
 		if knownNestedReturnGap && p.matchesNestedReturnGap() && onlyLoss(cr.Resource) {
 			return "", "good/rejected-FS27", v, cr
 		}
@@ -506,7 +509,7 @@ func judge(p *Program, knownGap bool) (msg string, cell string, v Verdict, cr ch
 	}
 }
 
-var knownHaltGap, knownHaltBranchGap, knownNestedReturnGap, knownLoopHalt bool
+var knownHaltGap, knownHaltBranchGap, knownNestedReturnGap, knownLoopHalt, knownLoopReturnJump bool
 
 func allDead(reasons []string) bool {
 	for _, r := range reasons {
@@ -604,6 +607,17 @@ func TestC03(t *testing.T) {
 		"oracle finds a violation and no error at all for linear programs. Non-trivial: ≥ 2 resources, ≥ 1 branch or loop, nesting depth ≥ 2. Distinct by program text.")
 	knownGap := rec.Known("FS24")
 	knownHaltGap = rec.Known("FS25") && evid.ReplayFile() == ""
+	knownLoopReturnJump = rec.Known("FS39") && evid.ReplayFile() == ""
+	if knownLoopReturnJump {
+		knownLoopReturnJump = false
+		m, _, _, _ := judge(&Program{Body: []Stmt{
+			{K: "new", V: "q", T: "R", Let: true},
+			{K: "while", A: []Stmt{{K: "if", A: []Stmt{{K: "continue"}}}, {K: "destroy", V: "q"}, {K: "return"}}},
+			{K: "destroy", V: "q"},
+		}}, false)
+		knownLoopReturnJump = true
+		rec.ReportKnown("FS39", m != "")
+	}
 	knownLoopHalt = rec.Known("FS28") && evid.ReplayFile() == ""
 	if knownLoopHalt {
 		knownLoopHalt = false
@@ -718,6 +732,9 @@ func TestC03(t *testing.T) {
 		}
 		if cell == "bad/accepted-FS28" {
 			rec.Excluded("FS28")
+		}
+		if cell == "good/rejected-FS39" {
+			rec.Excluded("FS39")
 		}
 		if cell == "good/rejected-FS27" {
 			rec.Excluded("FS27")
